@@ -4,7 +4,9 @@
 package udpbmc
 
 import (
+	"fmt"
 	"net"
+	"os"
 	"sync"
 	"sync/atomic"
 	"time"
@@ -82,6 +84,61 @@ func ListenV6(b *refbmc.BMC) (*Server, error) {
 	s.wg.Add(1)
 	go s.loop()
 	return s, nil
+}
+
+// ListenOutsideEphemeral is Listen (or ListenV6) on an explicitly chosen port below the kernel's
+// ephemeral range. A case that closes its server to make the port dead must not find the port
+// handed, moments later, to another server of this harness (same or another process) by a bind to
+// port 0: ports outside ip_local_port_range are never handed out that way. A process walks the
+// range from a starting point of its own (pid and start time), so that concurrent harness
+// processes are unlikely to pick each other's dead ports either (callers still have to allow for
+// it). Falls back to an ephemeral port when the range cannot be read.
+func ListenOutsideEphemeral(b *refbmc.BMC, v6 bool) (*Server, bool, error) {
+	lo := 0
+	if raw, err := os.ReadFile("/proc/sys/net/ipv4/ip_local_port_range"); err == nil {
+		fmt.Sscanf(string(raw), "%d", &lo)
+	}
+	const first = 10000
+	if lo < first+5000 {
+		s, err := pick(v6)(b)
+		return s, false, err
+	}
+	size := int64(lo - first)
+	reservedOnce.Do(func() {
+		reservedStart = (int64(os.Getpid())*7919 + time.Now().UnixNano()/1000) % size
+	})
+	for try := 0; try < 60; try++ {
+		port := first + int((reservedStart+reservedNext.Add(1))%size)
+		var c *net.UDPConn
+		var err error
+		if v6 {
+			c, err = net.ListenUDP("udp6", &net.UDPAddr{IP: net.IPv6loopback, Port: port})
+		} else {
+			c, err = net.ListenUDP("udp4", &net.UDPAddr{IP: net.IPv4(127, 0, 0, 1), Port: port})
+		}
+		if err != nil {
+			continue
+		}
+		s := &Server{BMC: b, Conn: c}
+		s.wg.Add(1)
+		go s.loop()
+		return s, true, nil
+	}
+	s, err := pick(v6)(b)
+	return s, false, err
+}
+
+var (
+	reservedNext  atomic.Int64
+	reservedOnce  sync.Once
+	reservedStart int64
+)
+
+func pick(v6 bool) func(*refbmc.BMC) (*Server, error) {
+	if v6 {
+		return ListenV6
+	}
+	return Listen
 }
 
 func (s *Server) Addr() string { return s.Conn.LocalAddr().String() }
